@@ -134,6 +134,8 @@ def conversion_exprs(spellings_by_kind, quick):
         for a, b, c in itertools.islice(itertools.permutations(targets, 3), 0, 30 if quick else 500):
             out.append("(((1.5+2*i) as %s) as %s) as %s" % (a, b, c))
             out.append("(((1.5+2*i) as %s) as %s) as %s" % (a, b, a))
+        for a, b in itertools.islice(itertools.permutations(targets, 2), 0, 12 if quick else 200):
+            out += ["f(2.5 %s) as %s" % (a, b), "cv(x) = x as %s\ncv(2.5 %s)" % (b, a), "f(f(1 %s)) as %s" % (a, b), "cv(x) = x as %s\ncv(7)" % b]
         for t in targets:
             out += ["3 as %s" % t, "(1+2*i) as %s" % t, "0 as %s" % t, "x as %s" % t, "1 + 2 as %s" % t, "2 * 3 %s as %s" % (t, targets[0])]
     return out
@@ -152,7 +154,7 @@ def measurement_exprs(rng, quick):
             out += ["%s %s + %s %s" % (m1, a, m2, b), "%s %s - %s %s" % (m1, a, m2, b),
                     "(%s %s + %s %s) as %s" % (m1, a, m2, b, a)]
         for a in us:
-            for k in ["2", "0", "1", "-1", "0.5", "1e10", "(1+i)", "i", "(0*i)"]:
+            for k in ["2", "0", "1", "-1", "0.5", "1e10", "(1+i)", "i", "(0*i)", "1e-16", "1e-20", "1e-300", "(1e-17*i)", "1e300", "(0*-1)"]:
                 out += ["6 %s * %s" % (a, k), "%s * 6 %s" % (k, a), "6 %s / %s" % (a, k), "(6 %s / %s) * %s" % (a, k, k),
                         "6 %s * (1/%s)" % (a, k), "-(6 %s)" % a, "-1 * 6 %s" % a, "%s / 6 %s" % (k, a)]
             for ex in ["0", "1", "1.0", "(2-1)", "2", "0.5", "-1", "i"]:
@@ -215,6 +217,13 @@ def matrix_exprs(rng, quick):
         out += ["inverse([%s])" % k, "inverse([%s,0;0,%s])" % (k, k), "inverse([%s,0,0;0,%s,0;0,0,1])" % (k, k),
                 "[%s,0;0,%s] * inverse([%s,0;0,%s])" % (k, k, k, k), "determinant([%s,0;0,%s])" % (k, k),
                 "inverse([1,2;3,4] * %s)" % k, "inverse(identity(3) * %s)" % k]
+    for k, kinv in [("1e-200", "1e200"), ("1e-170", "1e170"), ("1e200", "1e-200"), ("1e-100", "1e100")]:
+        out += ["[%s,2*%s;3*%s,4*%s] * [%s,0;0,%s]" % (k, k, k, k, kinv, kinv), "[%s,0;0,%s] * [%s,2*%s;3*%s,4*%s]" % (kinv, kinv, k, k, k, k),
+                "[%s, %s] * [%s; %s]" % (k, k, kinv, kinv), "[%s; %s] * [%s, %s]" % (k, k, kinv, kinv), "[1,2;3,4] * %s * %s" % (k, kinv),
+                "[%s, 1] dot [%s, 1]" % (k, kinv), "|[%s, %s]| * %s" % (k, k, kinv)]
+    for name, arg in [("transpose", "[1,2;3,4]"), ("determinant", "[1,2;3,4]"), ("inverse", "[1,2;3,4]"), ("identity", "2")]:
+        out += ["clear\n%s(%s)" % (name, arg), "delete %s\n%s(%s)" % (name, name, arg), "%s = inverse\n%s(%s)" % (name, name, arg),
+                "tt = %s\ntt(q) = q\n%s(%s)" % (name, name, arg), "%s(q) = q\n%s(%s)" % (name, name, arg)]
     for n in range(1, 5 if quick else 6):
         for _ in range(6 if quick else 30):
             a = rand_matrix(rng, n, n, complex_=rng.random() < 0.3)
@@ -269,7 +278,7 @@ def matrix_exprs(rng, quick):
     return out
 
 
-BOUNDARY2 = ["0", "1", "-1", "6", "0.5", "1e999", "-1e999", "(1e999-1e999)", "i", "[7]", "1e19", "9007199254740993", "5 m", "sin"]
+BOUNDARY2 = ["18446744073709551616", "9223372036854775808", "4294967296", "2147483648", "-9223372036854775808", "0", "1", "-1", "6", "0.5", "1e999", "-1e999", "(1e999-1e999)", "i", "[7]", "1e19", "9007199254740993", "5 m", "sin"]
 ARG_VALUES = ["[0]", "[0,0;0,0]", "(0*i)", "0", "1", "-1", "0.5", "-0.5", "2", "9007199254740993", "9007199254740991", "1e19", "-1e19", "1e999", "-1e999",
               "(1e999-1e999)", "i", "(1+i)", "(2-3*i)", "(0.5+0.25*i)", "[7]", "[1,2;3,4]", "[1,2,3]", "[1,2;2,4]", "[1,2;3,4;5,6]",
               "5 m", "sin", "f", "12", "18", "-12", "4e9", "1e300", "0.3", "170", "3"]
